@@ -163,7 +163,8 @@ SPECS.append(FucSpec(
     loops={0: LoopSpec(inv=[('matching_visited_entries', gh_inv0)], kinds={'handlers': Set(HANDLER), 'handler_channel': Any}),
            1: LoopSpec(inv=[('own_plus_visited_children', gh_inv1)], kinds={'handlers': Set(HANDLER)})},
     cover=['return'],
-    trusted=['lemma G8 of the forest (C07); termination of the recursion from acyclicity'],
+    trusted=['lemma G8 of the forest: proved in lemmas/Forest.lean from the Forest conjuncts G2 and G4 (C07) and a rank decreasing towards '
+             'the parent (finiteness of the forest assumed); termination of the recursion from the same rank'],
     clause='getHandlers(event, channel) on component r returns exactly HSET(r, name, channel): the handlers of components in the '
            'subtree of r declared for the name (or all events, or global) whose channel matches'))
 
@@ -412,3 +413,12 @@ SPECS.append(disp_spec(
     'C01', 'Manager._dispatcher[cache]', c01_post, setup_extra=c01_extra, cover_=['return', 'hit', 'miss'], loop_hooks={'entry': c01_entry},
     clause='_dispatcher: a stale cache is cleared before the lookup; on a miss the handler list is built from getHandlers on this '
            'root for the event and its channel (so it is the live set), each element once, and cached'))
+
+
+# lemma G8 (assumed by the recursive contracts above) is machine-checked: lemmas/Forest.lean derives it from the conjuncts G2
+# (reflexive) and G4 (upward unfolding), which the verifier proves for every operation, and a rank that decreases towards the parent
+from contracts.line_irc import lean_check as _lean_check      # noqa: E402
+from pyvc.contract import CustomCheck as _CustomCheck          # noqa: E402
+SPECS.append(_CustomCheck('C01', 'Forest.lean', _lean_check('Forest.lean'), file='lemmas/Forest.lean',
+                          clause='lemma G8 (a non-trivial member of sub[y] lies below some child of y) follows from the proved conjuncts '
+                                 'G2 and G4 of the Forest invariant and well-foundedness of the parent relation (Lean 4, no sorry)'))
